@@ -135,6 +135,26 @@ var ruleAddendaRound8 = map[string]string{
 	"C20": "server start over the populated store under a 30 s deadline",
 }
 
+// ruleAddendaRound9: extensions of the ninth round.
+var ruleAddendaRound9 = map[string]string{
+	"C01": "6 genuine assertion variants that say less about the request they answer (no / empty InResponseTo, no Recipient, no confirmation data, no confirmation, no audience) x 3 layouts with every operator around them",
+	"C02": "SubjectConfirmationData with its own satisfied NotBefore and / or an Address over the whole window lattice",
+	"C04": "middleware-acs also for a middleware configured with its own DefaultRedirectURI",
+	"C06": "SP descriptors stating AuthnRequestsSigned / WantAssertionsSigned (3 combinations, with and without encryption key)",
+	"C07": "values that repeat (a group listed twice, equal custom attribute values, one text in nine fields)",
+	"C08": "a keyless second role descriptor with its own POST endpoint (both orders) and requests naming no endpoint; hand-built IdpAuthnRequests with one exported field left out x 3 emission paths",
+	"C09": "EncryptedKey declarations: 5 transport URIs x 15 DigestMethod values x 6 MGF values",
+	"C10": "reference ciphertexts with the schema's optional parts (KeySize, Id, MimeType, Encoding, Recipient, KeyName, CarriedKeyName, EncryptionProperties)",
+	"C11": "mismatching certificates in documents that bind the XML-DSig / XML-Enc namespaces to other prefixes or to none",
+	"C12": "27 relay states that read as markup (tags, character references, comments, CDATA, template actions)",
+	"C13": "the messages' own serialisers: LogoutRequest.Bytes / Deflate, Element() written out for all four message types",
+	"C14": "six schemes that begin like http",
+	"C16": "requests on the SP's own endpoint paths",
+	"C17": "started URLs of 500..6000 bytes",
+	"C18": "metadata listing several signing certificates (incl. a second key under the same subject name and serial) x 6 signers; 12 request shapes that carry no logout response",
+	"C19": "groups in the user model and session snapshot, a PUT changing them, the assertion's groups compared with those stored at login; a PUT whose body carries hashed_password",
+}
+
 // Register adds a check.
 func Register(c *Check) {
 	if a := ruleAddenda[c.ID]; a != "" {
@@ -151,6 +171,9 @@ func Register(c *Check) {
 	}
 	if a := ruleAddendaRound8[c.ID]; a != "" {
 		c.Rule += " Eighth round: " + a
+	}
+	if a := ruleAddendaRound9[c.ID]; a != "" {
+		c.Rule += " Ninth round: " + a
 	}
 	registry[c.ID] = c
 }
